@@ -32,7 +32,7 @@
                        C07-7): cancelling one subscription makes another one drop    -> DropJustified *)
 EXTENDS Naturals, Sequences, FiniteSets, TLC
 
-CONSTANTS Subs, K, Closers, LegacyPlainSend, LegacyNoWgLock, MutClosingFirst, MutSharedCtx, MutEarlyReturn
+CONSTANTS Subs, K, Closers, LegacyPlainSend, LegacyNoWgLock, MutClosingFirst, MutSharedCtx, MutEarlyReturn, MutCheckThenClose
 
 None == "none"
 
@@ -131,8 +131,17 @@ ClInnerStart(c) == /\ cl[c] = "inner" /\ ~innerClosing /\ innerClosing' = TRUE
 ClInnerDone(c) == /\ cl[c] = "inner" /\ innerClosing /\ \A s \in Subs : inCh[s] # "open"
                   /\ innerClosed' = TRUE /\ cl' = [cl EXCEPT ![c] = AfterInner]
                   /\ U(<<sub, inCh, left, pump, held, outCh, got, drops, reading, ctxDone, lastCtx, closing, wg, wgLock, innerClosing, counted>>)
-ClSignal(c) == /\ cl[c] = "signal" /\ closing' = TRUE /\ cl' = [cl EXCEPT ![c] = AfterSignal]
+\* The closing signal is given once, whoever comes first (sync.Once).  MutCheckThenClose: "if not closed yet, close" in two steps --
+\* two calls that both find the channel open both close it: the second close of a closed channel is a panic (cl[c] = "panic").
+ClSignal(c) == /\ cl[c] = "signal"
+               /\ IF MutCheckThenClose
+                  THEN /\ cl' = [cl EXCEPT ![c] = IF closing THEN AfterSignal ELSE "signal2"] /\ U(<<closing>>)
+                  ELSE /\ closing' = TRUE /\ cl' = [cl EXCEPT ![c] = AfterSignal]
                /\ U(<<sub, inCh, left, pump, held, outCh, got, drops, reading, ctxDone, lastCtx, wg, wgLock, innerClosing, innerClosed, counted>>)
+ClSignal2(c) == /\ cl[c] = "signal2"
+                /\ IF closing THEN cl' = [cl EXCEPT ![c] = "panic"] /\ U(<<closing>>)
+                              ELSE closing' = TRUE /\ cl' = [cl EXCEPT ![c] = AfterSignal]
+                /\ U(<<sub, inCh, left, pump, held, outCh, got, drops, reading, ctxDone, lastCtx, wg, wgLock, innerClosing, innerClosed, counted>>)
 ClLock(c) == /\ cl[c] = "lock" /\ (LegacyNoWgLock \/ wgLock = None)
              /\ wgLock' = (IF LegacyNoWgLock THEN wgLock ELSE c)
              /\ cl' = [cl EXCEPT ![c] = "wait"] /\ counted' = [counted EXCEPT ![c] = Registered]
@@ -144,7 +153,7 @@ ClUnlock(c) == /\ cl[c] = "unlock" /\ wgLock' = (IF LegacyNoWgLock THEN wgLock E
 
 PumpStep(s) == PumpSend(s) \/ PumpDrop(s, "closing") \/ PumpDrop(s, "ctx") \/ PumpSeesClosed(s) \/ PumpCloseOut(s) \/ PumpDone(s)
 SubStep(s) == SubInner(s) \/ SubLock(s) \/ SubAdd(s) \/ SubUnlock(s) \/ SubGo(s)
-ClProgress(c) == ClInnerStart(c) \/ ClInnerDone(c) \/ ClSignal(c) \/ ClLock(c) \/ ClWait(c) \/ ClUnlock(c)
+ClProgress(c) == ClInnerStart(c) \/ ClInnerDone(c) \/ ClSignal(c) \/ ClSignal2(c) \/ ClLock(c) \/ ClWait(c) \/ ClUnlock(c)
 ClStep(c) == ClStart(c) \/ ClProgress(c)
 Next == \/ \E s \in Subs : SubStep(s) \/ PumpStep(s) \/ InnerSend(s) \/ InnerEnd(s) \/ CtxCancel(s) \/ StopReading(s)
         \/ \E c \in Closers : ClStep(c)
@@ -170,6 +179,8 @@ NothingLostSilently == \A s \in Subs : Len(got[s]) + Cardinality(drops[s]) + (IF
 OutClosedAfterIn == \A s \in Subs : outCh[s] = "closed" => inCh[s] = "closed"
 \* when Close has returned every forwarding goroutine that was counted is gone and its out channel closed
 CloseComplete == \A c \in Closers : cl[c] = "done" => \A s \in counted[c] : pump[s] = "done" /\ outCh[s] = "closed"
+\* no Close call ever closes the closing channel a second time
+NoDoubleSignal == \A c \in Closers : cl[c] # "panic"
 \* liveness: Close returns whatever the consumers do; a cancelled subscription's out channel gets closed
 CloseReturns == \A c \in Closers : (cl[c] # "idle") ~> (cl[c] = "done")
 CancelCloses == \A s \in Subs : (ctxDone[s] /\ pump[s] # "off") ~> (outCh[s] = "closed")
